@@ -89,6 +89,8 @@ def run_c12(it):
 
     add("py:dba", lambda: dtw_barycenter.dba(ser, avg.copy(), mask=mask, use_c=False, **kw))
     add("py:dba[use_c paths]", lambda: dtw_barycenter.dba(ser, avg.copy(), mask=mask, use_c=True, **kw))
+    # the same numbers as an integer-typed array (the values of an average are integers in these cases)
+    add("py:dba[int-typed average]", lambda: dtw_barycenter.dba(ser, avg.astype(np().int64), mask=mask, use_c=False, **kw))
     packed = np().packbits(mask, bitorder="little")
     kwc = dict(kw)
 
